@@ -62,7 +62,9 @@ type worldRT struct {
 	noSeq    map[string]bool // URLs whose exchanges are put on the time line by someone else (the logging fetcher)
 }
 
-func newWorldRT() *worldRT { return &worldRT{handlers: map[string]rtHandler{}, noSeq: map[string]bool{}} }
+func newWorldRT() *worldRT {
+	return &worldRT{handlers: map[string]rtHandler{}, noSeq: map[string]bool{}}
+}
 
 // loggingFetcher puts every Fetch call on the time line (the real HTTPFetcher may answer from,
 // or fail in, its cache without any request reaching the transport)
@@ -314,7 +316,9 @@ func ocspHandlerFor(b ocspBehav, cert, issuer *Cert) (rtHandler, string) {
 	case "empty":
 		return func(*http.Request) (*http.Response, error) { return httpBody(200, nil) }, "UErr"
 	case "garbage":
-		return func(*http.Request) (*http.Response, error) { return httpBody(200, []byte("<html>definitely not DER</html>")) }, "UErr"
+		return func(*http.Request) (*http.Response, error) {
+			return httpBody(200, []byte("<html>definitely not DER</html>"))
+		}, "UErr"
 	case "truncated":
 		der, _ := forgeOCSP(ocspBehav{Kind: "resp", Signer: "issuer", Serial: "match", Status: ocsp.Good, Next: "+1h", Inv: "none"}, cert, issuer)
 		return func(*http.Request) (*http.Response, error) { return httpBody(200, der[:len(der)/2]) }, "UErr"
@@ -377,14 +381,15 @@ func (e entrySpec) String() string {
 }
 
 type crlSpec struct {
-	Entries   []entrySpec
-	Number    int64  // CRL number; <0: no number extension
-	Next      string // +1h | -1h | absent
-	Signer    string // issuer | other | nocrlsign (issuer certificate lacks cRLSign: handled by the chain) | badsig
-	CritExt   bool   // unknown critical list extension
-	Indicator string // "" (none) | "n" decimal value | "bad"
-	IDP       bool   // critical issuing distribution point (allowed)
-	Freshest  string // URL advertised in a freshest-CRL extension of this CRL ("" none)
+	Entries     []entrySpec
+	Number      int64  // CRL number; <0: no number extension
+	Next        string // +1h | -1h | absent
+	Signer      string // issuer | other | nocrlsign (issuer certificate lacks cRLSign: handled by the chain) | badsig
+	CritExt     bool   // unknown critical list extension
+	Indicator   string // "" (none) | "n" decimal value | "bad"
+	IDP         bool   // critical issuing distribution point (allowed)
+	Freshest    string // URL advertised in a freshest-CRL extension of this CRL ("" none)
+	FreshestRaw []byte // if non-nil: the raw value of the freshest-CRL extension
 }
 
 var (
@@ -449,7 +454,9 @@ func buildCRL(s crlSpec, issuer *Cert, serial *big.Int) []byte {
 		v, _ := asn1.Marshal(big.NewInt(n))
 		tmpl.ExtraExtensions = append(tmpl.ExtraExtensions, pkix.Extension{Id: oidDeltaInd, Critical: true, Value: v})
 	}
-	if s.Freshest != "" {
+	if s.FreshestRaw != nil {
+		tmpl.ExtraExtensions = append(tmpl.ExtraExtensions, pkix.Extension{Id: oidFreshest, Value: s.FreshestRaw})
+	} else if s.Freshest != "" {
 		tmpl.ExtraExtensions = append(tmpl.ExtraExtensions, pkix.Extension{Id: oidFreshest, Value: cdpExtValue([][]string{{s.Freshest}})})
 	}
 	// CreateRevocationList demands cRLSign and a subject key id on the issuer template
@@ -492,8 +499,8 @@ func rewriteCRL(der []byte, key crypto.Signer, dropNumber, dropNext bool) []byte
 		Signature  pkix.AlgorithmIdentifier
 		Issuer     asn1.RawValue
 		ThisUpdate time.Time
-		NextUpdate time.Time       `asn1:"optional"`
-		Revoked    []asn1.RawValue `asn1:"optional"`
+		NextUpdate time.Time        `asn1:"optional"`
+		Revoked    []asn1.RawValue  `asn1:"optional"`
 		Extensions []pkix.Extension `asn1:"tag:0,optional,explicit"`
 	}
 	if _, err := asn1.Unmarshal(outer.TBS.FullBytes, &tbs); err != nil {
